@@ -789,7 +789,7 @@ pub fn run_program(ctx: &Arc<Ctx>) {
     let mut hs = vec![];
     for (c, ops) in prog.callers.iter().enumerate().skip(1) {
         let (ctx2, ops2) = (ctx.clone(), ops.clone());
-        hs.push(rt::thread::spawn(move || { desync::verif::log("api", "CALLER", c, String::new()); let mut l = Local::default(); for o in &ops2 { exec_top(&ctx2, o, c, &mut l); } if l.out.is_some() { desync::verif::log("api", "DROPSTREAM", 1, String::new()); } }));
+        hs.push(desync::verif::thread::spawn(move || { desync::verif::log("api", "CALLER", c, String::new()); let mut l = Local::default(); for o in &ops2 { exec_top(&ctx2, o, c, &mut l); } if l.out.is_some() { desync::verif::log("api", "DROPSTREAM", 1, String::new()); } }));
     }
     desync::verif::log("api", "CALLER", 0, String::new());
     if let Some(ops) = prog.callers.get(0) { let mut l = Local::default(); for o in ops { exec_top(ctx, o, 0, &mut l); } if l.out.is_some() { desync::verif::log("api", "DROPSTREAM", 1, String::new()); } }
